@@ -20,7 +20,6 @@ NA = {
  "C44": "repartition: row order and counts are data-dependent",
  "C45": "division planning: bisect/drift arithmetic over the data",
  "C47": "file round trips: byte-level parsing, pandas and pyarrow behaviour",
- "C50": "block-wise text reading: offset arithmetic plus fsspec.read_block",
 }
 checks, na = [], []
 for p in props:
